@@ -4,6 +4,7 @@ mod api_check;
 mod binsim;
 mod bulk;
 mod capacity;
+mod clonepanic;
 mod conc;
 mod dump;
 mod hooks;
@@ -439,7 +440,7 @@ fn cmd_binsim(args: &[String]) {
             }
             let mut fails = r.failures.clone();
             fails.extend(o.failures);
-            for f in fails.iter().take(1) {
+            for f in first_per_tag(&fails) {
                 found += 1;
                 println!("FOUND C01 binsim seed={} prog={} sched={} || {} || {}", seed, pi, si, f.replace('\n', " "), program_text(&prog));
             }
@@ -489,6 +490,56 @@ fn cmd_sets(args: &[String]) {
     );
 }
 
+/// later operations after a panic in K::clone inside a resize must return (C11)
+fn cmd_clonepanic(_args: &[String]) {
+    silence_panics();
+    let r = clonepanic::run();
+    for f in r.failures.iter().take(3) {
+        println!("FOUND {}", f);
+    }
+    println!(
+        "JSON {}",
+        json!({"scenarios": r.scenarios, "panics_inside_resize": r.panics_inside_resize, "later_operations_completed": r.later_operations, "found": r.failures.len()})
+    );
+    use std::io::Write;
+    let _ = std::io::stdout().flush();
+    // a stuck worker thread may still be spinning
+    std::process::exit(0);
+}
+
+/// the first failure of each property tag (a run may violate several properties at once)
+fn first_per_tag(fails: &[String]) -> Vec<&String> {
+    let mut seen: Vec<&str> = Vec::new();
+    let mut out = Vec::new();
+    for f in fails {
+        let tag = if f.len() >= 3 && f.starts_with('C') { &f[..3] } else { "" };
+        if !seen.contains(&tag) {
+            seen.push(tag);
+            out.push(f);
+        }
+    }
+    out
+}
+
+/// concurrent programs through HashSet / HashSetRef under the scheduler
+fn cmd_setconc(args: &[String]) {
+    // setconc <seed> <n_programs> <schedules_per_program>
+    let seed: u64 = args[0].parse().unwrap();
+    let n: u64 = args[1].parse().unwrap();
+    let scheds: u64 = args[2].parse().unwrap();
+    silence_panics();
+    hooks::install();
+    let r = sets::run_conc(seed, n, scheds);
+    for f in r.failures.iter().take(8) {
+        println!("FOUND {} setconc: {}", &f[..3], f);
+    }
+    println!(
+        "JSON {}",
+        json!({"runs": r.runs, "steps": r.steps, "calls": r.calls, "overlapping_same_element_inserts": r.overlapping_same_key_inserts,
+               "found": r.failures.len(), "samples": r.samples})
+    );
+}
+
 /// step-by-step conformance of Model/TreeLock.v: writes a Coq case file
 fn cmd_tlsim(args: &[String]) {
     // tlsim <seed> <n_programs> <schedules_per_program> <gen.json> <out.v>
@@ -526,7 +577,7 @@ fn cmd_tlsim(args: &[String]) {
                 }
                 let mut fails = r.failures.clone();
                 fails.extend(o.failures);
-                for f in fails.iter().take(1) {
+                for f in first_per_tag(&fails) {
                     found += 1;
                     println!("FOUND C11 tlsim seed={} prog={} sched={} || {} || {}", seed, pi, si, f.replace('\n', " "), program_text(&prog));
                 }
@@ -593,7 +644,10 @@ fn cmd_directed(args: &[String]) {
             let mut fails = r.failures.clone();
             match r.verdict {
                 Verdict::Deadlock => fails.push(format!("C11: deadlock: {}", r.statuses)),
-                Verdict::StepLimit => fails.push("C11: step limit exceeded".into()),
+                Verdict::StepLimit => {
+                        fails.push("C11: step limit exceeded".into());
+                        fails.extend(stuck_reads(&prog, &r));
+                    }
                 _ => {}
             }
             fails.extend(check_history(&prog, &r));
@@ -602,7 +656,7 @@ fn cmd_directed(args: &[String]) {
             if samples.len() < 2 {
                 samples.push(format!("treeify race, offset {}: {} steps, verdict {:?}", off, r.steps, r.verdict));
             }
-            for f in fails.iter().take(1) {
+            for f in first_per_tag(&fails) {
                 found += 1;
                 let tag = if f.starts_with('C') { f[..3].to_string() } else { "C07".to_string() };
                 println!("FOUND {} directed template=treeify_race cap={} offset={} || {} || {}", tag, cap, off, f.replace('\n', " "), program_text(&prog));
@@ -635,7 +689,10 @@ fn cmd_directed(args: &[String]) {
         let mut fails = r.failures.clone();
         match r.verdict {
             Verdict::Deadlock => fails.push(format!("C11: deadlock: {}", r.statuses)),
-            Verdict::StepLimit => fails.push("C11: step limit exceeded".into()),
+            Verdict::StepLimit => {
+                        fails.push("C11: step limit exceeded".into());
+                        fails.extend(stuck_reads(&prog, &r));
+                    }
             _ => {}
         }
         fails.extend(check_history(&prog, &r));
@@ -644,7 +701,7 @@ fn cmd_directed(args: &[String]) {
         if r.parks > 0 && samples.len() < 4 {
             samples.push(format!("tree lock contention, offset {}: writer parked {} time(s)", off, r.parks));
         }
-        for f in fails.iter().take(1) {
+        for f in first_per_tag(&fails) {
             found += 1;
             let tag = if f.starts_with('C') { f[..3].to_string() } else { "C11".to_string() };
             println!("FOUND {} directed template=tree_lock offset={} || {} || {}", tag, off, f.replace('\n', " "), program_text(&prog));
@@ -711,12 +768,15 @@ fn cmd_directed(args: &[String]) {
                         j,
                         k
                     )),
-                    Verdict::StepLimit => fails.push("C11: step limit exceeded".into()),
+                    Verdict::StepLimit => {
+                        fails.push("C11: step limit exceeded".into());
+                        fails.extend(stuck_reads(&prog, &r));
+                    }
                     _ => {}
                 }
                 fails.extend(check_history(&prog, &r));
                 fails.extend(check_quiescent(&prog, &r));
-                for f in fails.iter().take(1) {
+                for f in first_per_tag(&fails) {
                     found += 1;
                     let tag = if f.starts_with('C') { f[..3].to_string() } else { "C11".to_string() };
                     println!("FOUND {} directed template=park_window cut={} reader_steps={} || {} || {}", tag, k, j, f.replace('\n', " "), program_text(&prog));
@@ -774,13 +834,16 @@ fn cmd_directed(args: &[String]) {
                         let mut fails = r.failures.clone();
                         match r.verdict {
                             Verdict::Deadlock => fails.push(format!("C11: deadlock: {}", r.statuses)),
-                            Verdict::StepLimit => fails.push("C11: step limit exceeded".into()),
+                            Verdict::StepLimit => {
+                        fails.push("C11: step limit exceeded".into());
+                        fails.extend(stuck_reads(&prog, &r));
+                    }
                             _ => {}
                         }
                         fails.extend(check_quiescent(&prog, &r));
                         fails.extend(check_resize_events(&r));
                         fails.extend(check_history(&prog, &r));
-                        for f in fails.iter().take(1) {
+                        for f in first_per_tag(&fails) {
                             found += 1;
                             stale_found += 1;
                             let tag = if f.starts_with('C') { f[..3].to_string() } else { "C10".to_string() };
@@ -853,7 +916,7 @@ fn cmd_directed(args: &[String]) {
             }
             fails.extend(check_history(&prog, &r));
             fails.extend(check_quiescent(&prog, &r));
-            for f in fails.iter().take(1) {
+            for f in first_per_tag(&fails) {
                 found += 1;
                 let tag = if f.starts_with('C') { f[..3].to_string() } else { "C11".to_string() };
                 println!("FOUND {} directed template=stale_reader key={} k={} || {} || {}", tag, rk, k, f.replace('\n', " "), program_text(&prog));
@@ -887,13 +950,16 @@ fn cmd_directed(args: &[String]) {
             let mut fails = r.failures.clone();
             match r.verdict {
                 Verdict::Deadlock => fails.push(format!("C11: deadlock: {}", r.statuses)),
-                Verdict::StepLimit => fails.push("C11: step limit exceeded".into()),
+                Verdict::StepLimit => {
+                        fails.push("C11: step limit exceeded".into());
+                        fails.extend(stuck_reads(&prog, &r));
+                    }
                 _ => {}
             }
             fails.extend(check_iterators(&prog, &r));
             fails.extend(check_history(&prog, &r));
             fails.extend(check_quiescent(&prog, &r));
-            for f in fails.iter().take(1) {
+            for f in first_per_tag(&fails) {
                 found += 1;
                 let tag = if f.starts_with('C') { f[..3].to_string() } else { "C07".to_string() };
                 println!("FOUND {} directed template=lagging_counter stable={} || {} || {}", tag, stable, f.replace('\n', " "), program_text(&prog));
@@ -935,12 +1001,15 @@ fn cmd_directed(args: &[String]) {
                 let mut fails = rr.failures.clone();
                 match rr.verdict {
                     Verdict::Deadlock => fails.push(format!("C11: deadlock: {}", rr.statuses)),
-                    Verdict::StepLimit => fails.push("C11: step limit exceeded".into()),
+                    Verdict::StepLimit => {
+                        fails.push("C11: step limit exceeded".into());
+                        fails.extend(stuck_reads(&prog, &rr));
+                    }
                     _ => {}
                 }
                 fails.extend(check_history(&prog, &rr));
                 fails.extend(check_quiescent(&prog, &rr));
-                for f in fails.iter().take(1) {
+                for f in first_per_tag(&fails) {
                     found += 1;
                     let tag = if f.starts_with('C') { f[..3].to_string() } else { "C01".to_string() };
                     println!("FOUND {} directed template=list_walk remove={} k={} || {} || {}", tag, r, k, f.replace('\n', " "), program_text(&prog));
@@ -989,7 +1058,10 @@ fn cmd_directed(args: &[String]) {
                 let mut fails = r.failures.clone();
                 match r.verdict {
                     Verdict::Deadlock => fails.push(format!("C11: deadlock: {}", r.statuses)),
-                    Verdict::StepLimit => fails.push("C11: step limit exceeded".into()),
+                    Verdict::StepLimit => {
+                        fails.push("C11: step limit exceeded".into());
+                        fails.extend(stuck_reads(&prog, &r));
+                    }
                     _ => {}
                 }
                 fails.extend(check_quiescent(&prog, &r));
@@ -999,7 +1071,7 @@ fn cmd_directed(args: &[String]) {
                 if samples.len() < 10 && x == 0 {
                     samples.push(format!("transfer vs untreeify: {} resize(s), lock waits {}", r.events.iter().filter(|(_, e)| matches!(e, flurry::verif::Event::TablePublished { .. })).count(), r.lock_waits));
                 }
-                for f in fails.iter().take(1) {
+                for f in first_per_tag(&fails) {
                     found += 1;
                     let tag = if f.starts_with('C') { f[..3].to_string() } else { "C10".to_string() };
                     println!("FOUND {} directed template=transfer_vs_untreeify extra={} x={} || {} || {}", tag, extra, x, f.replace('\n', " "), program_text(&prog));
@@ -1049,7 +1121,10 @@ fn cmd_directed(args: &[String]) {
                 let mut fails = r.failures.clone();
                 match r.verdict {
                     Verdict::Deadlock => fails.push(format!("C11: deadlock: {}", r.statuses)),
-                    Verdict::StepLimit => fails.push("C11: step limit exceeded".into()),
+                    Verdict::StepLimit => {
+                        fails.push("C11: step limit exceeded".into());
+                        fails.extend(stuck_reads(&prog, &r));
+                    }
                     _ => {}
                 }
                 fails.extend(check_history(&prog, &r));
@@ -1059,7 +1134,7 @@ fn cmd_directed(args: &[String]) {
                 if samples.len() < 11 && k == 3 && op == 0 {
                     samples.push(format!("update of a tree bin across its transfer: {} resize(s), lock waits {}", r.events.iter().filter(|(_, e)| matches!(e, flurry::verif::Event::TablePublished { .. })).count(), r.lock_waits));
                 }
-                for f in fails.iter().take(1) {
+                for f in first_per_tag(&fails) {
                     found += 1;
                     let tag = if f.starts_with('C') { f[..3].to_string() } else { "C01".to_string() };
                     println!("FOUND {} directed template=tree_moved colliding={} op={:?} k={} || {} || {}", tag, ncoll, t1, k, f.replace('\n', " "), program_text(&prog));
@@ -1111,7 +1186,10 @@ fn cmd_directed(args: &[String]) {
                     let mut fails = r.failures.clone();
                     match r.verdict {
                         Verdict::Deadlock => fails.push(format!("C11: deadlock: {}", r.statuses)),
-                        Verdict::StepLimit => fails.push("C11: step limit exceeded".into()),
+                        Verdict::StepLimit => {
+                        fails.push("C11: step limit exceeded".into());
+                        fails.extend(stuck_reads(&prog, &r));
+                    }
                         _ => {}
                     }
                     fails.extend(check_history(&prog, &r));
@@ -1119,11 +1197,118 @@ fn cmd_directed(args: &[String]) {
                     if samples.len() < 12 && k == 5 && j == 3 && m == 4 {
                         samples.push(format!("reader pinning inside the transfer of a list bin: {} resize(s), {} reclaimed blocks", r.events.iter().filter(|(_, e)| matches!(e, flurry::verif::Event::TablePublished { .. })).count(), r.reclaimed));
                     }
-                    for f in fails.iter().take(1) {
+                    for f in first_per_tag(&fails) {
                         found += 1;
                         let tag = if f.starts_with('C') { f[..3].to_string() } else { "C03".to_string() };
                         println!("FOUND {} directed template=retire_window key={} overwrites={} k={} j={} || {} || {}", tag, rk, m, k, j, f.replace('\n', " "), program_text(&prog));
                     }
+                }
+            }
+        }
+    }
+    // template 11 (a traversal - retain, retain_force, an iterator - that started on a small table and
+    // goes on while the table doubles several times): thread 0 makes k steps into its traversal,
+    // thread 1's reserve takes the 16-bin table through 32 and 64 to 128 bins, thread 0 resumes
+    // two and more generations behind
+    if want("retaingen") {
+        // layouts: keys of few 16-bin bins that end up in many different bins of the later tables
+        let layouts: [Vec<u32>; 2] = [vec![1, 2, 3, 5, 17, 18, 19, 21, 33, 49, 50], vec![1, 17, 33, 49, 65, 81, 97, 113, 2, 34, 98]];
+        for (op, extra, lay) in [(COp::Retain(2), 40u64, 0usize), (COp::RetainForce(3), 40, 1), (COp::Retain(1), 100, 1), (COp::Iter, 40, 0), (COp::RetainForce(2), 20, 1), (COp::Retain(3), 40, 1), (COp::Iter, 100, 1)] {
+            for k in (0..=max_off.min(60)).step_by(2) {
+                let prog = Program {
+                    hasher: types::H_IDENTITY,
+                    cap: 0,
+                    prefill: layouts[lay].clone(),
+                    threads: vec![vec![op.clone()], vec![COp::Reserve(extra)], vec![COp::Iter]],
+                    universe: 128,
+                    batch: 1,
+                    pin: false,
+                    linger: 0,
+                };
+                let script = vec![(0usize, Cond::Steps(k)), (1usize, Cond::Done), (0, Cond::Done), (2usize, Cond::Done)];
+                let opts = RunOpts { policy: Policy::Directed(script, 0), step_limit: 200_000, freeze: None };
+                println!("AT directed template=traversal_generations op={:?} reserve={} k={} || {}", op, extra, k, program_text(&prog));
+                let r = with_hasher!(prog.hasher, S, { run_program::<S>(&prog, opts) });
+                runs += 1;
+                let mut fails = r.failures.clone();
+                match r.verdict {
+                    Verdict::Deadlock => fails.push(format!("C11: deadlock: {}", r.statuses)),
+                    Verdict::StepLimit => {
+                        fails.push("C11: step limit exceeded".into());
+                        fails.extend(stuck_reads(&prog, &r));
+                    }
+                    _ => {}
+                }
+                fails.extend(check_iterators(&prog, &r));
+                fails.extend(check_history(&prog, &r));
+                fails.extend(check_quiescent(&prog, &r));
+                if samples.len() < 13 && k == 10 && extra == 40 {
+                    samples.push(format!("traversal across generations ({:?}): {} resize(s)", op, r.events.iter().filter(|(_, e)| matches!(e, flurry::verif::Event::TablePublished { .. })).count()));
+                }
+                for f in first_per_tag(&fails) {
+                    found += 1;
+                    let tag = if f.starts_with('C') { f[..3].to_string() } else { "C07".to_string() };
+                    println!("FOUND {} directed template=traversal_generations op={:?} reserve={} k={} || {} || {}", tag, op, extra, k, f.replace('\n', " "), program_text(&prog));
+                }
+            }
+        }
+    }
+    // template 12 (a second writer arrives while a removal turns a tree bin back into a list): thread 1
+    // removes colliding keys one by one and stops x steps into the untreeify of the removal that
+    // shrinks the tree too far; thread 2's remove / compute_if_present / insert on another key of
+    // that bin runs (it must wait for the bin lock); thread 1 finishes; thread 2 finishes
+    if want("untreeify2") {
+        for (i, t2) in [COp::Remove(5 + 64 * 8), COp::Compute(5 + 64 * 8, 1), COp::Insert(5 + 64 * 8, 91), COp::Remove(5 + 64 * 7), COp::Compute(5 + 64 * 7, 0)].iter().enumerate() {
+            let coll: Vec<u32> = (0..9).map(|j| 5 + 64 * j).collect();
+            let mut prefill = coll.clone();
+            prefill.extend(6..20u32);
+            let target = match t2 { COp::Remove(k) | COp::Compute(k, _) | COp::Insert(k, _) => *k, _ => 0 };
+            for x in 0..=max_off.min(12) {
+                let prog = Program {
+                    hasher: types::H_IDENTITY,
+                    cap: 42,
+                    prefill: prefill.clone(),
+                    threads: vec![
+                        vec![COp::Get(target), COp::Iter],
+                        coll.iter().take(6).map(|k| COp::Remove(*k)).collect(),
+                        vec![t2.clone(), COp::Get(target)],
+                    ],
+                    universe: 64 * 10,
+                    batch: 1,
+                    pin: false,
+                    linger: 0,
+                };
+                let script = vec![
+                    (1usize, Cond::EntersFn("untreeify".into())),
+                    (1, Cond::Steps(x)),
+                    (2usize, Cond::Done),
+                    (1, Cond::Done),
+                    (2, Cond::Done),
+                    (0usize, Cond::Done),
+                ];
+                let opts = RunOpts { policy: Policy::Directed(script, 0), step_limit: 200_000, freeze: None };
+                println!("AT directed template=second_writer_at_untreeify variant={} x={} || {}", i, x, program_text(&prog));
+                let r = with_hasher!(prog.hasher, S, { run_program::<S>(&prog, opts) });
+                runs += 1;
+                let mut fails = r.failures.clone();
+                match r.verdict {
+                    Verdict::Deadlock => fails.push(format!("C11: deadlock: {}", r.statuses)),
+                    Verdict::StepLimit => {
+                        fails.push("C11: step limit exceeded".into());
+                        fails.extend(stuck_reads(&prog, &r));
+                    }
+                    _ => {}
+                }
+                fails.extend(check_history(&prog, &r));
+                fails.extend(check_quiescent(&prog, &r));
+                fails.extend(check_iterators(&prog, &r));
+                if samples.len() < 14 && x == 2 && i == 0 {
+                    samples.push(format!("second writer at untreeify: lock waits {}", r.lock_waits));
+                }
+                for f in first_per_tag(&fails) {
+                    found += 1;
+                    let tag = if f.starts_with('C') { f[..3].to_string() } else { "C03".to_string() };
+                    println!("FOUND {} directed template=second_writer_at_untreeify variant={} x={} || {} || {}", tag, i, x, f.replace('\n', " "), program_text(&prog));
                 }
             }
         }
@@ -1418,7 +1603,7 @@ fn cmd_c12(args: &[String]) {
                 if *r.steps_of.get(1).unwrap_or(&0) > 5000 {
                     fails.push(format!("C12: the read needed {} of its own steps", r.steps_of[1]));
                 }
-                for f in fails.iter().take(1) {
+                for f in first_per_tag(&fails) {
                     found += 1;
                     println!("FOUND C12 writer `{}` suspended after {} steps, reader {:?} || {}", name, k, rop, f);
                 }
@@ -1541,6 +1726,8 @@ fn main() {
         "directed" => cmd_directed(&args[2..]),
         "binsim" => cmd_binsim(&args[2..]),
         "sets" => cmd_sets(&args[2..]),
+        "setconc" => cmd_setconc(&args[2..]),
+        "clonepanic" => cmd_clonepanic(&args[2..]),
         "tlsim" => cmd_tlsim(&args[2..]),
         "atomics" => cmd_atomics(&args[2..]),
         "panic" => cmd_panic(&args[2..]),
